@@ -13,6 +13,8 @@ sequences   corpus first; exhaustive over {rename A, A', B, undo latest|#0|#1, r
             random sequences of length <= 10 on three workspaces.
 repaired    same_second_duplicate_id, concat_id_collision, redo_id_collision (c3d511b) and redo_repeatable (07a4584) are
             `fixed:` entries: their corpus sequences must conform now, and the old behaviour coming back is a VIOLATION.
+translate   translate/history_flags.py regenerates Gen/HistoryFlags.lean (early duplicate-id check, redo-once, undo / redo
+            pre-validation) from apply.rs and undo.rs; the driver runs `Cfg.current` built from it, so the model follows the code
 clock       LD_PRELOAD shim (`shim.run_with_clock`): every command runs at a fixed fake unix time, so "same second" and
             "next second" are exact.
 """
@@ -556,6 +558,12 @@ def run(ctx):
                         "reverse patches span the whole file (files of at most four lines, line count unchanged by the terms)",
                         "file names contain no term (path renames are C01/C08)",
                         "plan-id hash injective on the explored (terms, second) pairs"]
+    try:
+        from translate import history_flags
+        history_flags.run()
+        ctx.cov["history_flags"] = history_flags.flags(common.REPO)
+    except Exception as ex:                      # a translator that cannot parse its source is a broken tie
+        ctx.broke("translator", "translate/history_flags.py", str(ex))
     ctx.prove("RModel.Props.C10")
     ok, msg = common.cargo_build()
     if not ok:
@@ -646,6 +654,12 @@ def replay(ctx, path):
     if not ok:
         ctx.broke("build", "cargo", msg)
         return
+    try:                                          # keep the model's flags in step with the code being replayed
+        from translate import history_flags
+        if any(ch for _, ch in history_flags.run()):
+            common.lean_build([])
+    except Exception as ex:
+        ctx.broke("translator", "translate/history_flags.py", str(ex))
     if not isinstance(case, dict) or "sequence" not in case:
         print(json.dumps(obj, indent=1)[:3000])
         return
